@@ -472,12 +472,18 @@ func (r *transport) backgroundRevalidate(
 	errc := make(chan error, 1)
 	go func() {
 		defer close(errc)
-		//nolint:bodyclose // The response is not used, so we don't need to close it.
 		resp, start, end, err := r.roundTripTimed(req)
 		if err != nil {
 			errc <- err
 			return
 		}
+		// Nobody reads the origin's answer to a background request: whatever becomes of
+		// it below, its body is closed so that the connection is released.
+		defer func() {
+			if resp.Body != nil {
+				_ = resp.Body.Close()
+			}
+		}()
 		select {
 		case <-req.Context().Done():
 			errc <- req.Context().Err()
@@ -520,8 +526,10 @@ func (r *transport) backgroundRevalidate(
 			Refs:      refs,
 			RefIndex:  refIndex,
 		}
-		//nolint:bodyclose // The response is not used, so we don't need to close it.
-		_, err = r.vrh.HandleValidationResponse(revalCtx, clientReq, resp, nil)
+		out, err := r.vrh.HandleValidationResponse(revalCtx, clientReq, resp, nil)
+		if out != nil && out.Body != nil {
+			_ = out.Body.Close() // the freshened / stored copy is not used either
+		}
 		errc <- err
 	}()
 
